@@ -263,6 +263,8 @@ func c02Build(cfgToks []string) (*c02World, error) {
 		raBuckets:        make(map[int][]string),
 		raBucketCount:    16,
 		registry:         allocator.GetGlobalRegistry(),
+		dhcp6Providers:   map[string]dhcp6.DHCPProvider{"local": w.prov6},
+		dhcp6Sem:         make(chan struct{}, 16),
 	}
 	for n, d := range sds {
 		s := &c02Sess{id: "s" + d.id, proto: d.proto, grp: d.grp,
@@ -550,6 +552,54 @@ func (w *c02World) op(f []string) string {
 		out := fmt.Sprintf("pi %s v4=%s", res, c02Num(p.IPv4Address))
 		p.mu.Unlock()
 		return out
+	case "PS", "PV", "PR": // DHCPv6 over PPP: SOLICIT / REQUEST / RELEASE through handleDHCPv6 -> forwardDHCPv6
+		if s.proto != "P" || s.dead || s.ppp.AllocCtx == nil {
+			return "skip"
+		}
+		p := s.ppp
+		mt := map[string]byte{"PS": 1, "PV": 3, "PR": 8}[f[0]]
+		duid := append([]byte{0, 3, 0, 1}, s.mac...)
+		mark := len(w.bus.frames)
+		p.mu.Lock()
+		p.ipv6cpOpen = true // IPv6CP is up (its negotiation is not this property's)
+		p.handleDHCPv6(net.ParseIP("fe80::1"), c02V6Msg(mt, duid))
+		p.mu.Unlock()
+		// gate: the bounded worker holds a semaphore slot from dispatch until forwardDHCPv6 has returned
+		deadline := time.Now().Add(30 * time.Second)
+		for len(w.comp.dhcp6Sem) > 0 {
+			if time.Now().After(deadline) {
+				panic("dhcp6_worker_not_idle")
+			}
+			time.Sleep(20 * time.Microsecond)
+		}
+		ans := "nil"
+		for i := len(w.bus.frames) - 1; i >= mark; i-- {
+			fr := w.bus.frames[i]
+			// PPPoE header (6), PPP protocol (2), IPv6 header (40), UDP header (8), DHCPv6 message
+			if len(fr) > 60 && binary.BigEndian.Uint16(fr[6:8]) == ppp.ProtoIPv6 {
+				a6, pd := c02V6Told(fr[56:])
+				switch fr[56] {
+				case 2:
+					ans = "adv:" + a6 + ":" + pd
+				case 7:
+					ans = "rep:" + a6 + ":" + pd
+				}
+				break
+			}
+		}
+		p.mu.Lock()
+		out := fmt.Sprintf("rec6=%s recd=%s", c02Num(p.IPv6Address), c02Pfx(p.IPv6Prefix))
+		p.mu.Unlock()
+		if f[0] == "PR" {
+			return "pr " + out
+		}
+		return strings.ToLower(f[0]) + " " + ans + " " + out
+	case "PX": // the component's teardown after terminate(): releaseDHCPv6Lease
+		if s.proto != "P" || !s.dead {
+			return "skip"
+		}
+		w.comp.releaseDHCPv6Lease(s.ppp)
+		return "skip"
 	case "PT":
 		if s.proto != "P" {
 			return "skip"
